@@ -29,6 +29,55 @@ let main (args : string list) : unit =
          (match M.reassemble fs with
           | None -> print_endline "NONE"
           | Some b -> print_endline ("OK " ^ hex_of_bytes b))
+       | "peel" :: outer :: layers ->
+         (* peel tunnel layers, outermost first; each layer kind:raw:sport:dport:vni:ethertype:index:seq *)
+         let ints l = List.map int_of_n l in
+         let rec drop n l = if n = 0 then l else match l with [] -> [] | _ :: r -> drop (n - 1) r in
+         let rec take n l = if n = 0 then [] else match l with [] -> [] | x :: r -> x :: take (n - 1) r in
+         let be16 l = match ints (take 2 l) with [a; b] -> a * 256 + b | _ -> -1 in
+         let rec go (frame : M.n list) (ls : string list) : string =
+           match ls with
+           | [] -> "OK " ^ hex_of_bytes frame
+           | l :: rest ->
+             (match String.split_on_char ':' l with
+              | [kind; raw; sp; dp; vni; et; ix; seq] ->
+                let i = int_of_string in
+                let l3 = if raw = "1" then frame else drop 14 frame in
+                if List.length l3 < 20 then "BAD short" else
+                let proto = List.nth (ints l3) 9 in
+                let l4 = drop 20 l3 in
+                if kind = "vxlan" then begin
+                  if proto <> 17 then "BAD vxlan-proto" else
+                  if be16 l4 <> i sp || be16 (drop 2 l4) <> i dp then "BAD vxlan-ports" else
+                  match M.vxlan_decode (drop 8 l4) with
+                  | None -> "BAD vxlan-flags"
+                  | Some (v, inner) -> if int_of_n v <> i vni then "BAD vxlan-vni" else go inner rest
+                end else begin
+                  if proto <> 47 then "BAD gre-proto" else
+                  match M.gre_decode l4 with
+                  | None -> "BAD gre-header"
+                  | Some g ->
+                    let want_proto = if kind = "gre" then i et else 0x88be in
+                    if int_of_n g.M.g_proto <> want_proto then "BAD gre-type" else
+                    if kind = "erspan2" then begin
+                      match g.M.g_seq with
+                      | None -> "BAD erspan2-noseq"
+                      | Some s ->
+                        if int_of_n s <> i seq then "BAD erspan2-seq" else
+                        (match M.erspan2_decode g.M.g_payload with
+                         | None -> "BAD erspan2-short"
+                         | Some ((ver, idx), inner) ->
+                           if int_of_n ver <> 1 then "BAD erspan2-version" else
+                           if int_of_n idx <> (i ix) land 0xfffff then "BAD erspan2-index" else go inner rest)
+                    end else begin
+                      match g.M.g_seq with
+                      | Some _ -> "BAD gre-unexpected-seq"
+                      | None -> go g.M.g_payload rest
+                    end
+                end
+              | _ -> "BAD layer-spec")
+         in
+         print_endline (go (bytes_of_hex outer) layers)
        | [] -> print_endline ""
        | _ -> print_endline "BAD")
     done
